@@ -703,8 +703,22 @@ type reverseSegmentScanner struct {
 // newReverseSegmentScanner creates a scanner that iterates from the given
 // offset backwards.
 func newReverseSegmentScanner(segment *segment, startOffset int64) *reverseSegmentScanner {
-	// Convert log offset to index entry offset
-	entryOffset := startOffset - segment.BaseOffset
+	// Convert log offset to index entry offset. The segment may have been
+	// compacted, in which case offsets are sparse and the entry's position in
+	// the index is not offset-BaseOffset, so search for the last entry whose
+	// offset is less than or equal to the start offset. If there is no such
+	// entry, entryOffset is -1 and the first Scan returns io.EOF.
+	var (
+		n = int(segment.Index.CountEntries())
+		e = &entry{}
+	)
+	idx := sort.Search(n, func(i int) bool {
+		if err := segment.Index.ReadEntryAtLogOffset(e, int64(i)); err != nil {
+			return true
+		}
+		return e.Offset > startOffset
+	})
+	entryOffset := int64(idx) - 1
 	return &reverseSegmentScanner{
 		s:   segment,
 		ris: newReverseIndexScanner(segment.Index, entryOffset),
